@@ -26,18 +26,21 @@ def build_file(case):
         for (delta, tempo, note) in tr:
             if tempo is not None:
                 t.append(mido.MetaMessage('set_tempo', tempo=tempo, time=delta))
+            elif note == -1000:
+                # an end_of_track that is not the last message (tracks glued together): its ticks count, the message goes
+                t.append(mido.MetaMessage('end_of_track', time=delta))
             elif note < 0:
                 t.append(mido.MetaMessage('marker', text='x%d' % -note, time=delta))
             else:
                 t.append(mido.Message('note_on', note=note % 128, velocity=note // 128 % 128, time=delta))
         trs.append(t)
-    mid = mido.MidiFile(type=ty, ticks_per_beat=tpb, tracks=trs)
+    mid = mido.MidiFile(type=ty, ticks_per_beat=tpb, tracks=trs, debug=bool(case.get('debug')))
     if case.get('loaded'):
         # the same contents as a file loaded from bytes (ticks_per_beat then comes from the header)
         import io
         buf = io.BytesIO()
         mid.save(file=buf)
-        mid = mido.MidiFile(file=io.BytesIO(buf.getvalue()))
+        mid = mido.MidiFile(file=io.BytesIO(buf.getvalue()), debug=bool(case.get('debug')))
     return mid
 
 
@@ -48,6 +51,8 @@ def merged_ref(tracks):
         now = 0
         for i, (delta, tempo, note) in enumerate(tr):
             now += delta
+            if note == -1000:
+                continue
             evs.append((now, ti, i, tempo, note))
         longest = max(longest, now)
     evs.sort(key=lambda e: (e[0], e[1], e[2]))
@@ -124,6 +129,16 @@ class FakeTime:
 
 
 def impl_case(case):
+    if case.get('debug'):
+        # debug=True makes the library print what it reads; what it computes must be the same
+        import contextlib
+        import io as _io
+        with contextlib.redirect_stdout(_io.StringIO()):
+            return _impl_case(case)
+    return _impl_case(case)
+
+
+def _impl_case(case):
     import mido
     from mido.midifiles import midifiles as MF
     fail = None
@@ -300,7 +315,9 @@ def gen(ck):
                 if ntempo and r < 0.25:
                     ntempo -= 1
                     tr.append((delta, rng.choice([0, 1, 250000, 500000, 1000000, 16777215, rng.randint(0, 16777215)]), 0))
-                elif r < 0.35:
+                elif r < 0.31:
+                    tr.append((delta, None, -1000))
+                elif r < 0.37:
                     tr.append((delta, None, -rng.randint(1, 99)))
                 else:
                     tr.append((delta, None, rng.randint(0, 16383)))
@@ -309,7 +326,7 @@ def gen(ck):
         sched = [(rng.choice([0, 0, 0, rng.randint(0, 5 * 10 ** 8), rng.randint(0, 10 ** 12)]),
                   rng.choice([0, 0, rng.randint(0, 10 ** 9)])) for _ in range(nmsg + 1)]
         cases.append({'type': ty, 'tpb': tpb, 'tracks': tracks, 'start': rng.choice([0, 12345678, 10 ** 13]),
-                      'sched': sched, 'meta': rng.random() < 0.5, 'loaded': rng.random() < 0.4})
+                      'sched': sched, 'meta': rng.random() < 0.5, 'loaded': rng.random() < 0.4, 'debug': rng.random() < 0.15})
     # long pieces (no count of events is special): several thousand events, the consumer stalling shortly before event
     # 1024 / 4096 / 8192 / 16384 (quick: 4096 only), and once early on
     for total, stalls in ((4200, [100, 4088, 4090]), (4300, [4094])) if ck.tier == 'quick' else \
